@@ -2,7 +2,9 @@
   C11 / F-11c — x/oracle/keeper/native_token.go: parseBalanceChange, with its slice accesses made explicit.
   The function reads a 32-byte bitmap (`indexes`, one bit per staker of the asset's staker list, most significant
   bit first) and a bit-packed list of balance changes (`changes`), and indexes `changes[byteIndex]` and
-  `sl.StakerAddrs[index]` WITHOUT any bounds check: `panic` below is Go's "index out of range".
+  `sl.StakerAddrs[index]`. First part of the file: the function as it was BEFORE 2a9d869 (F-11c), without any bounds
+  check (`parseBalanceChange`, kept for the F-11c witnesses of Props/C11Sites.lean; `panic` is Go's "index out of
+  range"). Second part (`parseCur`, `updateCur`): the function as it is now, replayed by the domain liveness_nstparse.
   Bytes are `Nat` < 256; Go's `byte` arithmetic (`<<` truncates to 8 bits) is mirrored by `% 256`.
   Core Lean only.
 -/
@@ -96,7 +98,7 @@ def bitsOf (b : Nat) : List Bool := [7, 6, 5, 4, 3, 2, 1, 0].map (fun i => (b >>
 def parseBalanceChangeWith (checked : Bool) (rawData : List Nat) (nStakers : Nat) : Res (List (Nat × Int)) :=
   scanBits checked (rawData.drop 32) nStakers ((rawData.take 32).flatMap bitsOf) 0 { byteIndex := 0, bitOffset := 0 } []
 
-/-- the code as it is -/
+/-- the code as it was before 2a9d869 (F-11c) -/
 def parseBalanceChange (rawData : List Nat) (nStakers : Nat) : Res (List (Nat × Int)) :=
   parseBalanceChangeWith false rawData nStakers
 
@@ -109,5 +111,119 @@ def updateNSTByBalanceChange (rawData : List Nat) (nStakers : Nat) : Res (List (
 /-- the stored price of an NST token is a base-10 string (aggregator: `finalPrice.String()`); AppendPriceTR hands
 `[]byte(price)` to UpdateNSTByBalanceChange -/
 def asciiDigits (n : Nat) : List Nat := (toString n).toList.map (fun ch => ch.toNat)
+
+/-! ## The parser as it is since 2a9d869 (F-11c repaired): every slice access is preceded by its bounds check.
+`parseCur .perChunk` mirrors x/oracle/keeper/native_token.go: parseBalanceChange line by line, with the four error
+returns kept apart (they are what the harness observes through UpdateNSTByBalanceChange); `ValueGuard` says where the
+check of the value loop sits, so that the regression shapes are inputs of the same definition. -/
+
+/-- where the bounds check of `for bitsExtracted < int(lenValue) { … changes[byteIndex] … }` sits -/
+inductive ValueGuard where
+  | perChunk   -- the code as it is: `if byteIndex >= len(changes) { return errBalanceChangeTooShort }` before every read
+  | hoisted    -- regression (seed C11-i): `if byteIndex+(int(lenValue)-1)/8 >= len(changes)` once, in front of the loop
+  | absent     -- regression (before 2a9d869): no check
+deriving Repr, DecidableEq
+
+inductive PRes (α : Type) where
+  | ok (a : α)
+  | errIndex     -- "balance change flags staker index %d, staker list has %d entries"
+  | errShort     -- errBalanceChangeTooShort
+  | errLen0      -- "length of change value must be at least 1 bit"
+  | panic        -- runtime error: index out of range
+deriving Repr, DecidableEq
+
+/-- the value loop under a guard shape; the header (5 bits) is always read under its two checks -/
+def valueCur (g : ValueGuard) (changes : List Nat) (lenValue : Nat) (c : Cur) : PRes (Cur × Nat) :=
+  match g with
+  | .perChunk =>
+    match extract true changes lenValue 16 c 0 0 with
+    | .ok r => .ok r
+    | _ => .errShort
+  | .hoisted =>
+    if c.byteIndex + (lenValue - 1) / 8 ≥ changes.length then .errShort
+    else match extract false changes lenValue 16 c 0 0 with
+      | .ok r => .ok r
+      | _ => .panic
+  | .absent =>
+    match extract false changes lenValue 16 c 0 0 with
+    | .ok r => .ok r
+    | _ => .panic
+
+/-- one flagged staker: `if byteIndex >= len(changes)`, 5 header bits (second check when they straddle), value -/
+def oneChangeCur (g : ValueGuard) (changes : List Nat) (c : Cur) : PRes (Cur × Int) :=
+  match changes[c.byteIndex]? with
+  | none => .errShort
+  | some b0 =>
+    let bitsLeft := 8 - c.bitOffset
+    let lv0 := (shl8 b0 c.bitOffset) >>> 3
+    let step : Option (Cur × Nat) :=
+      if bitsLeft < 5 then
+        match changes[c.byteIndex + 1]? with
+        | none => none
+        | some b1 => some ({ byteIndex := c.byteIndex + 1, bitOffset := 5 - bitsLeft }, lv0 ||| (b1 >>> (8 - 5 + bitsLeft)))
+      else
+        let off := if c.bitOffset + 5 = 8 then 0 else c.bitOffset + 5
+        some ({ byteIndex := if bitsLeft = 5 then c.byteIndex + 1 else c.byteIndex, bitOffset := off }, lv0)
+    match step with
+    | none => .errShort
+    | some (c1, lv) =>
+      let symbol := lv % 2
+      let lenValue := lv / 2
+      if lenValue = 0 then .errLen0
+      else
+        match valueCur g changes lenValue c1 with
+        | .ok (c2, mag) =>
+          let v : Int := Int.ofNat mag + 1
+          .ok (c2, if symbol = 1 then -v else v)
+        | .errIndex => .errIndex
+        | .errShort => .errShort
+        | .errLen0 => .errLen0
+        | .panic => .panic
+
+/-- the double loop; the staker-list check comes FIRST for a flagged bit -/
+def scanCur (g : ValueGuard) (changes : List Nat) (nStakers : Nat) : List Bool → Nat → Cur → List (Nat × Int) → PRes (List (Nat × Int))
+  | [], _, _, acc => .ok acc
+  | bit :: rest, index, c, acc =>
+    if bit then
+      if index ≥ nStakers then .errIndex
+      else match oneChangeCur g changes c with
+        | .ok (c', v) => scanCur g changes nStakers rest (index + 1) c' (acc ++ [(index, v)])
+        | .errIndex => .errIndex
+        | .errShort => .errShort
+        | .errLen0 => .errLen0
+        | .panic => .panic
+    else scanCur g changes nStakers rest (index + 1) c acc
+
+def parseCur (g : ValueGuard) (rawData : List Nat) (nStakers : Nat) : PRes (List (Nat × Int)) :=
+  scanCur g (rawData.drop 32) nStakers ((rawData.take 32).flatMap bitsOf) 0 { byteIndex := 0, bitOffset := 0 } []
+
+/-- what UpdateNSTByBalanceChange does with a byte string (every staker holding one validator, balance 32):
+`len32` / `empty` are its own two checks, `applied` = new balances of all stakers, `range` = the effective-balance
+check refused a parsed change (nothing written) -/
+inductive Upd where
+  | len32 | empty | errIndex | errShort | errLen0 | range | applied (bal : List Int) | panic
+deriving Repr, DecidableEq
+
+def changeOf (l : List (Nat × Int)) (i : Nat) : Int :=
+  match l.find? (fun e => e.1 = i) with
+  | some e => e.2
+  | none => 0
+
+def updateCur (g : ValueGuard) (rawData : List Nat) (nStakers : Nat) : Upd :=
+  if rawData.length < 32 then .len32
+  else if nStakers = 0 then .empty
+  else match parseCur g rawData nStakers with
+    | .errIndex => .errIndex
+    | .errShort => .errShort
+    | .errLen0 => .errLen0
+    | .panic => .panic
+    | .ok l =>
+      let bal := (List.range nStakers).map (fun i => 32 + changeOf l i)
+      if bal.all (fun b => decide (0 < b ∧ b ≤ 32)) then .applied bal else .range
+
+/-- does the oracle EndBlock survive the re-append of this stored price (GrowRoundID → AppendPriceTR →
+UpdateNSTByBalanceChange: errors are logged, a panic stops the node) -/
+def endBlockHalts (g : ValueGuard) (rawData : List Nat) (nStakers : Nat) : Bool :=
+  updateCur g rawData nStakers = .panic
 
 end ExoVerif.NstBitmap
